@@ -23,6 +23,7 @@ EXPLANATION = (
     "halogen atoms is matched by the product ban list RuleBasedMethod.run passes to RuleConstraint, evaluated the way the code "
     "does (canonicalise ban literals, regex search on the record's SMILES); (D4) the text appended by the imputer is the "
     "solution's smiles repeated Ratio times.  Completeness and arithmetic of the depth-first search over all vectors are NOT decided."
+    ' The ban list may be computed from literals at import time: it is constant-folded (comprehensions, itertools.combinations*, str.format) before D3 is decided.'
 )
 ASSUMPTIONS = [
     "RDKit parses the table literals as the pipeline's own RDKit does (same interpreter)",
